@@ -373,6 +373,14 @@ def run(ctx):
         if rng.random() < 0.5 and body:
             chunks = [rng.choice([1, 2, 3, 4, 5, 6]) for _ in range(rng.randint(1, 4))]
         resp_specs.append((ct, body, chunks))
+    # every content type x tiny bodies (empty, 1, 2, 3 bytes, byte order marks alone and followed by
+    # even / odd payloads) x framing (content-length, one-byte chunks, [2, 1, ...] chunks)
+    tiny = [b"", b"{", b"{}", b"{}\x00", b"\xff\xfe", b"\xfe\xff", b"\xff\xfe{", b"\xfe\xff\x00",
+            b"\xff\xfe" + "{}".encode("utf-16-le"), b"\xfe\xff" + "{}".encode("utf-16-be"), b"\xff", b"\xfe\xff\x00{\x00"]
+    for ct in cts:
+        for body in tiny:
+            for chunks in (None, [1], [2, 1]):
+                resp_specs.append((ct, body, chunks))
     for ct, body, chunks in resp_specs:
         raw, frames = reply(ct, body, chunks, status=rng.choice([200, 200, 200, 500, 404]))
         kind = "xml" if (ct and b"xml" in ct.lower()) else "json"
@@ -609,7 +617,7 @@ def run(ctx):
     ctx.log("e2e leg")
     e2e_n = 0
     try:
-        e2e_n = e2e_leg(ctx, form, MAXM, MAXE, disagreements, failures, dist)
+        e2e_n = e2e_leg(ctx, form, MAXM, MAXE, disagreements, failures, dist, ints["request_body_low_limit_size"])
     except vplib.Violation:
         raise
     total += e2e_n
@@ -700,7 +708,7 @@ def run(ctx):
             corr_name="Panic.v site models (%s) vs the real sites" % ",".join("%s=%s" % kv for kv in sorted(form.items())))
 
 
-def e2e_leg(ctx, form, MAXM, MAXE, disagreements, failures, dist):
+def e2e_leg(ctx, form, MAXM, MAXE, disagreements, failures, dist, limit=102400):
     """the real ProxyServer with hostile callers (command line from /proc), hostile headers and URLs"""
     import e2e
     rng = ctx.rng
@@ -754,6 +762,28 @@ def e2e_leg(ctx, form, MAXM, MAXE, disagreements, failures, dist):
             r = e2e.http_request("GET", "/provision", [("Metadata", "true"), ("x-ms-azure-time_tick", tick), ("x-ms-azure-notify", "\xff")])
             scs.append(e2e.scenario("provision tick %r" % tick, [e2e.conn([r, get], audit=e2e.audit(e2e.IMDS, uid=0))]))
             metas.append({"kind": "provision"})
+        # request bodies on the signing path and on an exempt route: chunked past the limit, exactly at
+        # the limit, declared over the limit, slow delivery, a body that is never completed
+        L = limit
+        def head(method, target, extra):
+            return ("%s %s HTTP/1.1\r\nHost: x\r\n%s\r\n" % (method, target, "".join("%s: %s\r\n" % kv for kv in extra))).encode("latin-1")
+        chunked = [("Transfer-Encoding", "chunked")]
+        body_reqs = [
+            ("chunked L+1 in 4 KiB chunks", e2e.WIRESERVER, e2e.req(head("POST", "/machine?comp=x", chunked), gen_body={"len": L + 1, "seed": 1, "chunk_sizes": [4096]}), True),
+            ("chunked L+5000 in one chunk", e2e.IMDS, e2e.req(head("PUT", "/metadata/x", chunked), gen_body={"len": L + 5000, "seed": 2, "chunk_sizes": [L + 5000]}), True),
+            ("chunked 3L in 1000-byte chunks", e2e.HOSTGA, e2e.req(head("POST", "/x", chunked), gen_body={"len": 3 * L, "seed": 3, "chunk_sizes": [1000]}), True),
+            ("chunked exactly L", e2e.WIRESERVER, e2e.req(head("POST", "/machine?comp=x", chunked), gen_body={"len": L, "seed": 4, "chunk_sizes": [8192]}), True),
+            ("declared L+1", e2e.WIRESERVER, e2e.req(head("POST", "/machine?comp=x", [("Content-Length", str(L + 1))]), gen_body={"len": L + 1, "seed": 5, "chunk_sizes": None}), True),
+            ("exempt route chunked 2L", e2e.WIRESERVER, e2e.req(head("PUT", "/vmAgentLog", chunked), gen_body={"len": 2 * L, "seed": 6, "chunk_sizes": [16384]}), True),
+            ("slow body", e2e.IMDS, e2e.req(e2e.http_request("POST", "/metadata/x", [], body=b"z" * 300), write_sizes=[7], write_pause_ms=2), True),
+            ("body never completed", e2e.IMDS, e2e.req(head("POST", "/metadata/x", [("Content-Length", "1000")]) + b"y" * 100, timeout_ms=1200), False),
+        ]
+        for name, dest, rq, must_answer in body_reqs:
+            for with_key in ((False, True) if must_answer and "chunked L+1" in name else (False,)):
+                scs.append(e2e.scenario("body: %s%s" % (name, " (key latched)" if with_key else ""),
+                                        [e2e.conn([rq], audit=e2e.audit(dest, uid=0)), e2e.conn([get], audit=e2e.audit(e2e.IMDS, uid=0))],
+                                        key=key if with_key else None))
+                metas.append({"kind": "body", "optional": set() if must_answer else {0}})
         big = e2e.http_request("GET", "/" + "u" * 65400, [])
         scs.append(e2e.scenario("64 KiB URL", [e2e.conn([big]), e2e.conn([get], audit=e2e.audit(e2e.IMDS, uid=0))], key=key))
         metas.append({"kind": "url"})
@@ -797,9 +827,11 @@ def e2e_leg(ctx, form, MAXM, MAXE, disagreements, failures, dist):
                                   "impl": {"panics": r.get("panics"), "statuses": sts}})
         # property: every syntactically valid request gets a response, nothing panics
         unanswered = []
-        for ci, conn_st in enumerate(sts):
+        for ci, c_res in enumerate(r.get("connections", [])):
+            if ci in m.get("optional", ()):
+                continue          # the request itself was never completed: no response is owed
             nreq = len(sc["connections"][ci]["requests"])
-            answered = len([x for x in conn_st if x])
+            answered = len([x for x in c_res.get("responses", []) if x.get("complete") and x.get("status")])
             if answered < nreq:
                 unanswered.append((ci, nreq, answered))
         if unanswered or panics:
